@@ -10,13 +10,13 @@ CHECKS = {
          "The comparison table is decided for every ordered pair of operand kinds (Nothing, null, bool, int, pooled float, str, array, object) and all six operators with symbolic contents; existence tests, logical trees to depth 3, the five functions and nested filters are decided through the real pipeline on documents with symbolic leaves and member presence.",
          "string ordering and regex subjects on pooled strings, floats from a pool; catalogue of expressions; oracle"),
  "C06": ("bounded symbolic execution of evaluation, pointer and patch entry points asserting the exception family; z3 regular-language inclusion of lexer token rules in the domain of the conversions applied to them",
-         "Evaluation with a value of every JSON kind at each operand position, pointer parse/resolve on symbolic text (escape decoding off) and over the alphabet Sigma, relative pointers, patch build/apply with symbolic member presence: only the documented error families escape, str(exc) works. Lane R decides for strings of any length that every token the parser converts is convertible or refused. Arbitrary query text is outside (probes only).",
+         "Evaluation (sync, and async for a subset) with a value of every JSON kind at each operand position, pointer parse/resolve on symbolic text (escape decoding off) and over the alphabet Sigma, relative pointers, patch build/apply with symbolic member presence: only the documented error families escape, str(exc) works. Lane R decides for strings of any length that every token the parser converts is convertible or refused. Arbitrary query text is outside (probes only).",
          "lexer cannot be executed symbolically: query text is catalogue/probes; Sigma enumeration where a C codec sits in the way"),
  "C07": ("bounded symbolic execution of the integer range gate with symbolic limits; z3 regular-language inclusion RFC grammar vs live lexer rules; solver-driven enumeration of a finite typed program space through the real compiler",
          "Index/slice construction is decided for symbolic bounds and symbolic environment limits (slice: all integers); RFC int/number/member-name-shorthand/slice/blank languages are shown included in the live rules for strings of any length, and the index branch accepts only RFC ints; 33 atom kinds x 15 logical templates and 11 argument kinds x every parameter position are compiled and compared with an independent RFC 2.4.3 classification.",
          "typing rules beyond the finite template space are outside; program text is concretised"),
  "C08": ("bounded symbolic execution of every resolve_async/evaluate_async twin next to its sync counterpart on one symbolic document",
-         "For a catalogue of standard, extended and compound queries the async and sync results agree in values, order, paths, parts and exception class on documents with symbolic leaf kinds (strings and scalars in container positions), lengths and presence; also with an async item getter (immediate and suspending) and under symbolic interleavings of two evaluations.",
+         "For a catalogue of standard, extended and compound queries (negative and out-of-range indices, zero steps, filter-context and root queries nested in filters) the async and sync results agree in values, order, paths, parts and exception class on documents with symbolic leaf kinds (strings and scalars in container positions), lengths and presence; also with an async item getter (immediate and suspending) under symbolic interleavings of two evaluations, for the document given as text / file / bytes, and when one compiled query is awaited twice on one document object.",
          "coroutines driven without an event loop; bounded schedules"),
  "C09": ("bounded symbolic execution of cached vs uncached filter evaluation, reuse histories and interleaved lazy iterators",
          "For 22 queries mixing cacheable and per-node sub-expressions, caching on/off, reuse, a d1,d2,d1 history, an evaluation left unfinished followed by another, two interleaved lazy iterators (filtered and plain descendant queries) and re-evaluation of one JSON text after the caller edited the results give identical results on symbolic documents and contexts, and nothing is modified.",
@@ -28,16 +28,16 @@ CHECKS = {
          "findall/finditer/match/query (and the async twins) at environment, compiled and module level agree; compound queries with 2-4 operands equal the left-to-right fold, with symbolic leaf values deciding which intersections are empty; JSON text (blank-space-led too), text-file and binary-file forms agree over pooled leaves, and a second call on the same text is unaffected by what the caller did to the first call's results.",
          "text/file forms are enumeration over pooled leaves (json is a C boundary)"),
  "C04": ("bounded symbolic execution of JSONPointer parse/resolve/exists on symbolic member names and tokens vs an RFC 6901 reference",
-         "Every node reachable: a symbolic member name (escape decoding off) or a Sigma name (decoding on and off) placed in four document shapes resolves through its RFC 6901 spelling to that very node; a last token applied to an array, primitive or object resolves exactly when RFC 6901 section 4 can evaluate it, otherwise raises a resolution error / returns the default, and exists() agrees.",
+         "Every node reachable: a symbolic member name (escape decoding off) or a Sigma name (decoding on and off) placed in four document shapes resolves through its RFC 6901 spelling to that very node; a last token applied to an array, primitive or object resolves exactly when RFC 6901 section 4 can evaluate it, otherwise raises a resolution error / returns the default, and exists() agrees; resolve_parent reaches the same node; digit tokens up to and including the index limit; the document as JSON text / file / bytes (blank-space-led too); one pointer text parsed under other options before.",
          "Obj: objects with a symbolic member name are pure-Python Mappings (a dict would realise the key); Sigma enumeration where the unicode-escape codec (C) sits in the way"),
  "C05": ("bounded symbolic execution of every Op.apply / JSONPatch.apply on a symbolic document vs an RFC 6902 section 4 reference",
-         "One condition per operation kind x target kind (symbolic array index from 0 to len+2, '-', existing/new/digit-named member, root, missing or scalar parent, nested array) and per move/copy source x target pair: result as JSON value or error kind equals the reference; test equality decided with symbolic null/bool/int values on both sides; copy independence; sampled sequences of 2-3 operations.",
+         "One condition per operation kind x target kind (symbolic array index from 0 to len+2, '-', existing/new/digit-named member, root, missing or scalar parent, nested array) and per move/copy source x target pair: result as JSON value or error kind equals the reference; test equality decided with symbolic null/bool/int values on both sides; copy independence; sampled sequences of 2-3 operations; a patch whose container value is edited by its own later operations applied twice; patches applied twice to one JSON text.",
          "pointers passed as token tuples; indices >= 0; fixed document spine with symbolic length and leaves"),
  "C14": ("bounded symbolic execution of JSONPointer parse/print/from_parts/join/parent/is_relative_to/eq/hash vs the RFC 6901 token model",
          "Parse-print identity and equality-iff-token-sequences-equal on symbolic RFC 6901 text (decoding off) and on token lists over Sigma through from_parts, printing and re-parsing (decoding on and off); join and / with escaped tokens: spelling, parent, is_relative_to and resolve-then-step; join/parent chains; leading-slash replacement.",
          "Sigma / piece pools where the unicode-escape codec (always on in / and join) is a C boundary"),
  "C16": ("z3 regular-language inclusion of the draft's relative-pointer prefix grammar in the live RE_RELATIVE_POINTER groups; bounded execution of parse/print/to() vs the draft's definition over rendered pointers",
-         "Lane R decides for offsets of any number of digits that the draft's prefix is inside the live pattern. Parse-print identity, to() equal to the draft's definition and the three forbidden applications are decided over 7 base shapes x final indices x steps x offsets (incl. multi-digit) x suffixes ('#', escaped, non-ASCII), through RelativeJSONPointer.to and JSONPointer.to.",
+         "Lane R decides for offsets of any number of digits that the draft's prefix is inside the live pattern. Parse-print identity, to() equal to the draft's definition and the three forbidden applications are decided over 7 base shapes x final indices x steps x offsets (incl. multi-digit) x suffixes ('#', escaped, non-ASCII), through RelativeJSONPointer.to and JSONPointer.to; suffix tokens ending in blanks; base tokens containing a backslash or percent sign are not decoded again.",
          "relative pointer text is rendered from integers and passes through a C regex: solver-driven enumeration over pools"),
  "C15": ("bounded symbolic execution of the patch loader, builder methods, asdicts and Op.apply on symbolic values and documents",
          "For operation lists of 1-3 of the eight operations: the document form, the builder chain and JSONPatch(p.asdicts()) print the same dicts (given op names) and have the same effect; apply leaves the patch and the caller's list unchanged; a second application gives an equal, structurally independent result, including container values modified by a later operation; addne/addap vs add on 16 targets (digit-named members included); values include JSON null.",
